@@ -16,6 +16,8 @@ pub mod c14;
 pub mod c15;
 pub mod c16;
 pub mod c23;
+pub mod c24;
+pub mod c25;
 pub mod c28;
 pub mod c29;
 pub mod exh;
@@ -37,6 +39,8 @@ pub fn all() -> Vec<Prop> {
         c15::prop(),
         c16::prop(),
         c23::prop(),
+        c24::prop(),
+        c25::prop(),
         c28::prop(),
         c29::prop(),
     ]
